@@ -201,6 +201,9 @@ func (s *session) checkMemDBViews(when, mv, dbv string) {
 		return
 	}
 	sig := "C11/memory-differs-from-database"
+	if !modeC11 {
+		sig = "C12/memory-differs-from-database"
+	}
 	switch {
 	case memS == dbS && strings.Contains(db, "O[0:1:") && memSelf != dbSelf:
 		sig = "C11/restart-forgets-own-operator-id-after-operator-id-zero-with-own-key"
